@@ -185,3 +185,41 @@ def standin_findings(prop: str, standin: str) -> dict[str, str]:
     from pyvc.report import load_known
 
     return {k["case"]: k["text"] for k in load_known() if k["kind"] == "finding" and k.get("property") == prop and k.get("standin") == standin and "case" in k}
+
+
+KNOWN_SHAPE_SITES = {
+    "NegativePredicate.parse: isinstance(self.expression, Identifier)", "NegativePredicate.parse: isinstance(self.expression, Rule)",
+    "NegativePredicate.generate: isinstance(self.expression, Identifier)", "NegativePredicate.generate: isinstance(self.expression, Rule)",
+    "Rule.parse: isinstance(self.expression, Rule)", "Rule.parse: isinstance(self.expression, Identifier)",
+    "Rule.generate: isinstance(self.expression, Rule)", "Rule.generate: isinstance(self.expression, Identifier)",
+}
+
+
+def shape_inspection_sites() -> list[str]:
+    """parse() / generate() methods of expression classes that test the CLASS (or the tag / attributes) of a child
+    expression: `isinstance(<child>, ..)`, `type(<child>)`, `<child>.__class__`, `self.expression.<attr>` other than
+    parse / generate / children.  The operator and template proofs treat children as oracles (stub children when the real
+    generator is run), so they are representative only if no such test exists beyond the audited sites."""
+    import ast
+    import os
+    from pathlib import Path
+
+    root = Path(os.environ.get("PYVC_REPO", "/repo")) / "src" / "pest" / "grammar"
+    sites = []
+    child_roots = ("self.expression", "expr", "child", "self.expressions", "self.left", "self.right")
+    for path in root.rglob("*.py"):
+        if "optimizer" in str(path) or "codegen" in str(path) or path.name in ("parser.py", "scanner.py"):
+            continue
+        tree = ast.parse(path.read_text())
+        for cls in [n for n in ast.walk(tree) if isinstance(n, ast.ClassDef)]:
+            for fn in [f for f in cls.body if isinstance(f, ast.FunctionDef) and f.name in ("parse", "generate")]:
+                for nd in ast.walk(fn):
+                    if isinstance(nd, ast.Call) and isinstance(nd.func, ast.Name) and nd.func.id in ("isinstance", "type", "issubclass") and nd.args:
+                        a0 = ast.unparse(nd.args[0])
+                        if a0.startswith(child_roots):
+                            rest = f", {ast.unparse(nd.args[1])}" if len(nd.args) > 1 else ""
+                            sites.append(f"{cls.name}.{fn.name}: {nd.func.id}({a0}{rest})")
+                    if isinstance(nd, ast.Attribute) and isinstance(nd.value, ast.Attribute) and ast.unparse(nd.value) == "self.expression" \
+                            and nd.attr not in ("parse", "generate", "children", "expression", "value", "name"):
+                        sites.append(f"{cls.name}.{fn.name}: self.expression.{nd.attr}")
+    return sites
